@@ -155,6 +155,7 @@ func crIsolated(c *Ctx, onCrash func(c *Ctx, dir, stderr string) bool) {
 				c.Res.Violate(v.Signature, v.Message, replay)
 			}
 		}
+		crMergeLean(c, dir)
 		c.Res.Count("worker_processes", fmt.Sprintf("seed=%d", seed))
 		if runErr == nil {
 			return
@@ -177,5 +178,31 @@ func crIsolated(c *Ctx, onCrash func(c *Ctx, dir, stderr string) bool) {
 		}
 		c.Res.Violate("background-panic:"+site, fmt.Sprintf("the process running the check died: %s\n%s", msg, trace),
 			map[string]interface{}{"seed": seed, "tier": tier, "how": fmt.Sprintf("VERIF_WORKER=1 vh -prop %s -seed %d -tier %s (timing dependent)", c.Prop, seed, tier)})
+	}
+}
+
+// crMergeLean appends the model lines a worker recorded (ops.txt / expect.txt in its directory) to the
+// parent's; only complete line pairs count (a worker that died may have left a torn tail).
+func crMergeLean(c *Ctx, dir string) {
+	ob, err1 := os.ReadFile(filepath.Join(dir, "ops.txt"))
+	eb, err2 := os.ReadFile(filepath.Join(dir, "expect.txt"))
+	if err1 != nil || err2 != nil {
+		return
+	}
+	complete := func(b []byte) []string {
+		s := string(b)
+		i := strings.LastIndexByte(s, '\n')
+		if i < 0 {
+			return nil
+		}
+		return strings.Split(s[:i], "\n")
+	}
+	ops, exp := complete(ob), complete(eb)
+	n := len(ops)
+	if len(exp) < n {
+		n = len(exp)
+	}
+	for i := 0; i < n; i++ {
+		c.Lean(ops[i], exp[i])
 	}
 }
